@@ -1379,7 +1379,7 @@ class Interp:
                     for i in range(n):
                         self.heap[(args[0].base, args[0].off + i)] = ((v >> (8 * i)) & 0xFF) if isinstance(v, int) else U
             elif self.heap is not None and isinstance(args[0], Ptr) and isinstance(args[1], Ptr) and isinstance(n, int) \
-                    and isinstance(args[0].off, int) and isinstance(args[1].off, int) and 0 < n <= 65536:
+                    and isinstance(args[0].off, int) and isinstance(args[1].off, int) and 0 < n <= (1 << 20):
                 # tracked memory to tracked memory: whatever is stored at each source offset moves to the same
                 # offset of the destination (scalars stay whole); bytes nobody stored are read through the cleared
                 # regions / the memory oracle
